@@ -35,6 +35,36 @@ def run(chk):
     sim = L.simulate(chk, "5 blocks x <=2 txs", 3000 if thorough else 200, 12,
                      txs=txs + ["T6"], blocks=5, tpb=2, bad=0, deliver=6)
     chk.absorb(L.replay(chk, binary, behs + sim, "c06"), "replay on full-stack node")
+    # a transaction with 300 outputs (output indexes beyond one byte in the unspent index), its output 1 spent
+    # twice (W2, W3) and its output 257 spent (W4).  The wide UTXO sets make exhaustive extraction too heavy:
+    # scripted scenarios (LedgerScenario.tla computes the verdicts and views)
+    def M(p, *txs):
+        return ("M", p, txs, "none")
+    S = ("S", 0, (), "")
+
+    def D(i):
+        return ("D", i, (), "")
+    scen = {
+        "spent-twice": [M(0, "W1"), M(1, "W2"), M(2, "W3"), M(2, "W4"), S, D(1), D(2), D(3), D(4)],
+        "alias-first": [M(0, "W1"), M(1, "W4"), M(2, "W2"), M(3, "W3"), S, D(1), D(2), D(3), D(4)],
+        "reorg": [M(0, "W1"), M(1, "W2"), M(1, "W3"), M(3), M(4, "W2"), M(4, "W4"), S, D(1), D(2), D(3), D(4), D(5), D(6)],
+        "orphans": [M(0, "W1"), M(1, "W2"), M(2, "W4"), M(3, "W3"), S, D(4), D(3), D(2), D(1)],
+    }
+    wb = []
+    for name, steps in sorted(scen.items()):
+        items = ", ".join('<<"%s", %d, <<%s>>, "%s">>' % (a_, b_, ", ".join('"%s"' % t for t in c_), d_) for a_, b_, c_, d_ in steps)
+        script = ("---------------------------- MODULE LedgerScript ----------------------------\nScript == << %s >>\n"
+                  "=============================================================================\n" % items)
+        c_text = L.cfg(["W1", "W2", "W3", "W4"], 8, 1, 0, 8, fix=L.reorg_fix_expected(), extra="ACTION_CONSTRAINT SEmit") \
+            .replace("SPECIFICATION Spec", "SPECIFICATION SSpec")
+        r = vf.tlc("Chain", "LedgerScenario", "ws.cfg", cfg_text=c_text, files={"LedgerScript.tla": script}, workers=1, timeout=600)
+        vf.tlc_ok(r, "wide scenario " + name)
+        b_, _ = vf.behaviours(r, dedupe_prefixes=False)
+        if len(b_) != 1:
+            raise vf.Infra("wide scenario %s: not every scripted step is enabled" % name)
+        chk.add_tlc(r, "scenario with a 300-output transaction: " + name)
+        wb += b_
+    chk.absorb(L.replay(chk, binary, wb, "c06w"), "replay on full-stack node (300-output transaction)")
     L.selftest(chk, binary, behs + sim)
     chk.assumptions += ["mempool double-spend rejection is checked by C34 (Mempool.tla)",
                         "coinbase outputs of the behaviour's own blocks are never spent (maturity), funding comes from a 3-block prefix"]
